@@ -606,7 +606,13 @@ func sendUDP(r *stack.Route, data buffer.VectorisedView, localPort, remotePort u
 		for _, v := range data.Views() {
 			xsum = header.Checksum(v, xsum)
 		}
-		udp.SetChecksum(^udp.CalculateChecksum(xsum, length))
+		xsum = ^udp.CalculateChecksum(xsum, length)
+		// RFC 768: a computed checksum of zero is transmitted as all
+		// ones; a zero field means "no checksum", which IPv6 forbids.
+		if xsum == 0 {
+			xsum = 0xffff
+		}
+		udp.SetChecksum(xsum)
 	}
 
 	// Track count of packets sent.
